@@ -58,13 +58,9 @@ def rebuild (id : Nat) (newElem : Bytes) : Bytes → Option (Bytes × Bool)
       let len := b.toNat % 16 + 1
       if extId = 15 then some ([], false)
       else if extId = id then
-        match rebuild id newElem (rest.drop len) with
-        | none => none
-        | some (o, _) => some (newElem ++ o, true)
+        (rebuild id newElem (rest.drop len)).map fun r => (newElem ++ r.1, true)
       else if len ≤ rest.length then
-        match rebuild id newElem (rest.drop len) with
-        | none => none
-        | some (o, f) => some (b :: (rest.take len ++ o), f)
+        (rebuild id newElem (rest.drop len)).map fun r => (b :: (rest.take len ++ r.1), r.2)
       else none
 termination_by bs => bs.length
 decreasing_by all_goals (simp only [List.length_cons, List.length_drop]; omega)
